@@ -30,7 +30,7 @@ import (
 	"github.com/dolthub/dolt/go/zzverif/vt"
 )
 
-const c14Rule = "base (0..22000 entries), left and right by independent drawn edit scripts (single puts/deletes in 3 shared hot windows and one private window per side, contiguous runs of up to 500 deleted or inserted keys, edits at leaf boundaries of the base, plus 0-4 explicit both-sided edits of one hot key) or by a drawn special shape (one side unchanged, one side emptied, both sides identical, a common script on both sides first); sides built through MutableMap from the base tree or in bulk; collision handler drawn from {always conflict, take left, take right, field-wise combine (delete wins), conflict on odd keys else take right}. A key-wise model gives the expected map and the expected set of divergent keys. Compared: prolly.MergeMaps result and handler invocations (key, both diffs' from/to/type); tree.PatchGeneratorFromRoots+SendPatches+ApplyPatches on the left root (same root as MergeMaps, same invocations); every tree.ThreeWayDiffer output (op, key, base/left/right/merged) and its resolve-callback invocations; root hash of the merged map vs a bulk build of the expected content. Non-trivial: at least one divergent key, at least one range patch (level>0) sent for the right side, and base height>=2; distinct by hash of (schema, size, shape, scripts, handler)."
+const c14Rule = "base (0..22000 entries; one in five cut right after a leaf boundary, with a hot window on its end), left and right by independent drawn edit scripts (single puts/deletes in 3 shared hot windows and one private window per side, contiguous runs of up to 500 deleted or inserted keys, edits at leaf boundaries of the base, plus 0-4 explicit both-sided edits of one hot key) or by a drawn special shape (one side unchanged, one side emptied, both sides identical, a common script on both sides first); sides built through MutableMap from the base tree or in bulk; collision handler drawn from {always conflict, take left, take right, field-wise combine (delete wins), conflict on odd keys else take right}. A key-wise model gives the expected map and the expected set of divergent keys. Compared: prolly.MergeMaps result and handler invocations (key, both diffs' from/to/type); tree.PatchGeneratorFromRoots+SendPatches+ApplyPatches on the left root (same root as MergeMaps, same invocations); every tree.ThreeWayDiffer output (op, key, base/left/right/merged) and its resolve-callback invocations; root hash of the merged map vs a bulk build of the expected content. Non-trivial: at least one divergent key, at least one range patch (level>0) sent for the right side, and base height>=2; distinct by hash of (schema, size, shape, scripts, handler)."
 
 type c14Handler int
 
@@ -192,7 +192,31 @@ func c14Case(t *rapid.T, rec *vh.Recorder) {
 	if err != nil {
 		t.Fatalf("walk base: %v", err)
 	}
+	// one base in five is cut right after a leaf boundary: its last leaf then ends on a natural
+	// chunk boundary, and keys appended by one side start a new leaf next to the other side's edits
+	cutBase := false
+	if ib := shB.innerBounds(); len(ib) > 0 && rapid.IntRange(0, 4).Draw(t, "cutBaseAtBoundary") == 0 {
+		j := rapid.IntRange(0, len(ib)-1).Draw(t, "cutLeaf")
+		B = vt.FromSorted(append([]vt.Entry(nil), B.E[:ib[j]+1]...))
+		gb.note("cut after leaf %d (#%d)", j, ib[j])
+		cutBase = true
+		if baseM, err = w.bulk(B); err != nil {
+			t.Fatalf("bulk cut base: %v", err)
+		}
+		if shB, err = w.shape(baseM); err != nil {
+			t.Fatalf("walk cut base: %v", err)
+		}
+		if p, ok := c12PosOf(ks.Kinds[0], B.E[B.Len()-1].K[0]); ok {
+			fullHi = p + 40
+			// the last shared window sits on the end of the map
+			shared[len(shared)-1] = [2]int{max(0, p-12), p + 12}
+			gb.fullHi = fullHi
+		}
+	}
 	bounds := shB.innerBounds()
+	if cutBase {
+		bounds = shB.leafEnd // the end of the map is a natural boundary too
+	}
 	L, R := B.Clone(), B.Clone()
 	gl := &c12EditGen{w: w, fullHi: fullHi, hot: append(append([][2]int{}, shared...), c12Hot(t, "hotL", fullHi, 1)...), maxRun: 500}
 	gr := &c12EditGen{w: w, fullHi: fullHi, hot: append(append([][2]int{}, shared...), c12Hot(t, "hotR", fullHi, 1)...), maxRun: 500}
@@ -646,6 +670,9 @@ func c14Case(t *rapid.T, rec *vh.Recorder) {
 	}
 	if mergedA.Height() != baseM.Height() {
 		cl = append(cl, "height_changed")
+	}
+	if cutBase {
+		cl = append(cl, "base_ends_on_boundary")
 	}
 	nontrivial := nDiv > 0 && rangePatches > 0 && baseM.Height() >= 2
 	desc := fmt.Sprintf("%s k=%v v=%v n=%d base{%s} %s handler=%v left{%s} right{%s} => left-only=%d right-only=%d convergent=%d divergent=%d patches=%d range=%d",
